@@ -75,6 +75,16 @@ structure Env where
 def taiUtcAt (leap : List (Int × Int)) (num : Int) : Option Int :=
   (leap.reverse.find? (fun e => decide (e.1 * D ≤ num))).map (·.2)
 
+/-- the loop of `TaiUtc.get_last_next` over the reversed table: `future` is overwritten until the first entry with
+`mjd <= date` is met, which is `past` -/
+def lastNextRev : List (Int × Int) → Int → Option (Int × Int) → Option (Int × Int) × Option (Int × Int)
+  | [], _, fut => (none, fut)
+  | e :: r, num, fut => if e.1 * D ≤ num then (some e, fut) else lastNextRev r num (some e)
+
+/-- `TaiUtc.get_last_next(date)`: the last and the next leap-second events relative to a date (`(None, None)` = `none`) -/
+def lastNext (leap : List (Int × Int)) (num : Int) : Option (Int × Int) × Option (Int × Int) :=
+  lastNextRev leap.reverse num none
+
 /-- `SimpleEopDatabase.__getitem__(mjd)`: `finals[int(mjd)]` (truncation) then `tai_utc(mjd)`; `none` = KeyError -/
 def eopRaw (env : Env) (num : Int) : Option Eop :=
   match env.finals (Int.tdiv num D) with
